@@ -44,7 +44,7 @@ NAME = "serdeopts"
 PROPS = ("C16",)
 NEEDS_PEER = ()
 
-OPTS = ("skip", "sort", "explorer", "test", "idx", "dialect")
+OPTS = ("skip", "sort", "explorer", "test", "idx", "dialect", "odialect")
 SER = ("as_dict", "to_json", "to_msgpck", "to_yaml", "to_jsonb")
 DESER = ("as_obj", "from_json", "from_msgpck", "from_yaml")
 PAIR = {"as_dict": "as_obj", "to_json": "from_json", "to_msgpck": "from_msgpck", "to_yaml": "from_yaml", "to_jsonb": "from_json"}
@@ -61,10 +61,20 @@ class PDialect(Dialect):
 SHARED: dict[tuple[str, ...], dict[str, Any]] | None = None
 
 
+class ODialect(Dialect):
+    """a dialect that changes the KEY SET of every mapping: None-valued fields are left out"""
+
+    omit_none = True
+
+
+def _dia(opts: list[str]) -> Any:
+    return PDialect if "dialect" in opts else ODialect if "odialect" in opts else None
+
+
 def mk_options(opts: list[str]) -> tuple[dict[str, Any] | None, Any]:
-    key = tuple(sorted(o for o in opts if o != "dialect"))
+    key = tuple(sorted(o for o in opts if o not in ("dialect", "odialect")))
     if SHARED is not None and key in SHARED:
-        return SHARED[key], (PDialect if "dialect" in opts else None)
+        return SHARED[key], _dia(opts)
     d: dict[str, Any] = {}
     if "skip" in opts:
         d[SerializationOption.SKIP_CLASS] = True
@@ -78,7 +88,7 @@ def mk_options(opts: list[str]) -> tuple[dict[str, Any] | None, Any]:
         d[SOURCE_OPTIMIZED_SERIALIZATION_KEY] = True
     if SHARED is not None and d:
         SHARED[key] = d
-    return (d or None), (PDialect if "dialect" in opts else None)
+    return (d or None), _dia(opts)
 
 
 def has_big_int(o: Any) -> bool:
@@ -657,8 +667,11 @@ class Gen:
         pool = [o for o in OPTS if r.random() < self.w.cfg["p_opt"]]
         if "explorer" in pool and "test" in pool:
             pool.remove(r.choice(["explorer", "test"]))
-        if "dialect" in pool and m not in ("as_dict", "to_yaml", "as_obj", "from_yaml"):
-            pool.remove("dialect")
+        if "dialect" in pool and "odialect" in pool:
+            pool.remove(r.choice(["dialect", "odialect"]))
+        for dn in ("dialect", "odialect"):
+            if dn in pool and m not in ("as_dict", "to_yaml", "as_obj", "from_yaml"):
+                pool.remove(dn)
         return pool
 
     def run(self) -> None:
@@ -734,7 +747,7 @@ class Gen:
                     t = "origin:" + r.choice(U.ORIGIN_KEYS)
                 else:
                     t = r.choice(["source:a", "source:b", "position:c:a:0-5", "position:m:ab"])
-                keep = t in trees and not ({"skip", "test", "explorer"} & set(opts))
+                keep = t in trees and not ({"skip", "test", "explorer", "odialect"} & set(opts))
                 out = f"p{ci}" if keep else None
                 do({"op": "call", "m": m, "t": t, "opts": opts, "out": out})
                 if out and out in w.handles:
